@@ -437,7 +437,7 @@ fn run(ctx: &mut Ctx) {
         let n = super::dict_pairs(&seed, off as usize, 0..52, &dict, |_| {}, |b| check_light(ctx, b, "header field at a source constant + one more change"));
         ctx.count_n("inputs with a field at a source constant", n);
     });
-    let n = ctx.tier.pick(150_000, 4_000_000);
+    let n = ctx.tier.pick(150_000, 20_000_000);
     ctx.cases("random", n, |ctx, i, rng| {
         let rs = *rng.pick(&[0u16, 1, 2, 3, 4, 7, 8, 15, 16]);
         let dens = rng.next() as u128 | ((rng.next() as u128) << 64);
